@@ -26,7 +26,7 @@ impl Deserialize for MetadataMap {
                 cbor_event::Len::Len(n) => entries.len() < n as usize,
                 cbor_event::Len::Indefinite => true,
             } {
-                if is_break_tag(raw, "MetadataMap")? {
+                if is_break_tag(raw, &len, "MetadataMap")? {
                     break;
                 }
                 let key = TransactionMetadatum::deserialize(raw)?;
@@ -68,7 +68,7 @@ impl Deserialize for MetadataList {
                 cbor_event::Len::Len(n) => arr.len() < n as usize,
                 cbor_event::Len::Indefinite => true,
             } {
-                if is_break_tag(raw, "MetadataList")? {
+                if is_break_tag(raw, &len, "MetadataList")? {
                     break;
                 }
                 arr.push(TransactionMetadatum::deserialize(raw)?);
@@ -158,7 +158,7 @@ impl Deserialize for TransactionMetadatumLabels {
                 cbor_event::Len::Len(n) => arr.len() < n as usize,
                 cbor_event::Len::Indefinite => true,
             } {
-                if is_break_tag(raw, "TransactionMetadatumLabels")? {
+                if is_break_tag(raw, &len, "TransactionMetadatumLabels")? {
                     break;
                 }
                 arr.push(TransactionMetadatumLabel::deserialize(raw)?);
@@ -193,7 +193,7 @@ impl Deserialize for GeneralTransactionMetadata {
                 cbor_event::Len::Len(n) => table.len() < n as usize,
                 cbor_event::Len::Indefinite => true,
             } {
-                if is_break_tag(raw, "GeneralTransactionMetadata")? {
+                if is_break_tag(raw, &len, "GeneralTransactionMetadata")? {
                     break;
                 }
                 let key = TransactionMetadatumLabel::deserialize(raw)?;
